@@ -308,6 +308,33 @@ func (c *Client) PostRaw(body []byte, chunked bool) (int, error) {
 	return resp.StatusCode, nil
 }
 
+// PostJSONP posts an Engine.IO payload the JSON-P way: query parameter j=0, form body d=<payload>.
+// With chunked=true no Content-Length is declared. The returned size is the size of the HTTP body.
+func (c *Client) PostJSONP(payload []byte, chunked bool) (status int, bodyLen int, err error) {
+	body := []byte("d=" + url.QueryEscape(string(payload)))
+	var rd io.Reader = bytes.NewReader(body)
+	if chunked {
+		rd = chunkedReader{r: rd}
+	}
+	ctx, cancel := context.WithTimeout(context.Background(), 60*time.Second)
+	defer cancel()
+	req, err := http.NewRequestWithContext(ctx, "POST", c.url("polling", "j=0"), rd)
+	if err != nil {
+		return 0, len(body), err
+	}
+	if chunked {
+		req.ContentLength = -1
+	}
+	req.Header.Set("Content-Type", "application/x-www-form-urlencoded")
+	resp, err := c.http.Do(req)
+	if err != nil {
+		return 0, len(body), err
+	}
+	defer resp.Body.Close()
+	io.Copy(io.Discard, resp.Body)
+	return resp.StatusCode, len(body), nil
+}
+
 // SendMsg sends one text MESSAGE packet.
 func (c *Client) SendMsg(data string) error {
 	return c.Send(refcodec.EPacket{Type: refcodec.EMessage, Data: []byte(data)})
